@@ -370,12 +370,38 @@ def main():
             ('FormSize.v', lambda: gen_form_size(repo, outdir)),
             ('AllowSecOffset.v', lambda: gen_allow(repo, outdir)),
             ('AttrValueTable.v', lambda: gen_value_table(repo, outdir))]
+    status = {}
     for name, job in jobs:
         try:
             job()
+            status[name[:-2]] = 'ok'
         except (Unparsed, OSError, AssertionError, ValueError, IndexError, KeyError) as ex:
+            status[name[:-2]] = 'unavailable'
             warn('%s not regenerated (%s: %s); translator tie unavailable for it, the correspondence '
                  'streams still cover the table' % (name, type(ex).__name__, ex))
+    # further tables (translate/gentie.py): one Gen file per table; a table that cannot be parsed is REMOVED
+    # (never stale), ./check then skips the Properties/<Cxx>_tie*.v companions that need it
+    try:
+        sys.path.insert(0, os.path.dirname(os.path.abspath(__file__)))
+        import gentie
+        extra = gentie.JOBS
+    except Exception as ex:  # a broken generator module must not crash the check
+        extra = []
+        warn('translate/gentie.py could not be loaded (%s: %s)' % (type(ex).__name__, ex))
+    for name, job in extra:
+        try:
+            job(repo, outdir)
+            status[name] = 'ok'
+        except Exception as ex:
+            status[name] = 'unavailable'
+            for ext in ('.v', '.vo', '.vok', '.vos', '.glob'):
+                p = os.path.join(outdir, name + ext)
+                if os.path.exists(p):
+                    os.remove(p)
+            warn('%s.v not generated and removed (%s: %s); translator tie unavailable for it'
+                 % (name, type(ex).__name__, ex))
+    import json
+    print('tables.py: STATUS ' + json.dumps(status, sort_keys=True))
     return 0
 
 
